@@ -84,7 +84,7 @@ HdrChk(b, h, R) ==
        /\ \A k \in 1..n : EntrySmall(b, EntryPos(h, k))
        \* the region tag comes first; its trailer sits at the end of the store and points back
        /\ E(1).tag = R /\ E(1).type = TBin /\ E(1).count = 16
-       /\ E(1).offset >= 0 /\ E(1).offset + 16 = dl
+       /\ E(1).offset = dl - 16 /\ E(1).offset >= 0
        /\ LET tp == s0 + E(1).offset IN
           /\ EntrySmall(b, tp)
           /\ EntryAt(b, tp).tag = R /\ EntryAt(b, tp).type = TBin /\ EntryAt(b, tp).count = 16
@@ -95,8 +95,8 @@ HdrChk(b, h, R) ==
             /\ (k > 2 => E(k - 1).tag < e.tag)                      \* strictly ascending
             /\ e.type \in 1..9 /\ e.count >= 1
             /\ (e.type = TString => e.count = 1)
-            /\ e.offset >= 0 /\ e.offset % Align(e.type) = 0
-            /\ len > 0 /\ e.offset + len <= E(1).offset              \* in range, before the trailer
+            /\ e.offset >= 0 /\ e.offset <= E(1).offset /\ e.offset % Align(e.type) = 0
+            /\ len > 0 /\ len <= E(1).offset - e.offset              \* in range, before the trailer
             /\ (k > 2 => LET p == E(k - 1)
                              pl == DataLen(b, s0, s0 + E(1).offset, p)
                          IN p.offset + pl <= e.offset)               \* laid out in order, no overlap
@@ -116,7 +116,7 @@ HdrChkLoose(b, h, R) ==
        /\ n >= 1 /\ n <= 65535
        /\ \A k \in 1..n : EntrySmall(b, EntryPos(h, k))
        /\ E(1).tag = R /\ E(1).type = TBin /\ E(1).count = 16
-       /\ E(1).offset >= 0 /\ E(1).offset + 16 <= dl
+       /\ E(1).offset >= 0 /\ E(1).offset <= dl - 16
        /\ LET tp == s0 + E(1).offset
               rdl == E(1).offset + 16
               toff == I32(b, tp + 8)
@@ -124,7 +124,7 @@ HdrChkLoose(b, h, R) ==
           IN
           /\ EntrySmall(b, tp)
           /\ EntryAt(b, tp).tag = R /\ EntryAt(b, tp).type = TBin /\ EntryAt(b, tp).count = 16
-          /\ toff < 0 /\ (0 - toff) % 16 = 0 /\ ril >= 1 /\ ril <= n
+          /\ toff < 0 /\ toff >= 0 - 1048576 /\ (0 - toff) % 16 = 0 /\ ril >= 1 /\ ril <= n
           /\ \A k \in 2..n :
                LET e == E(k)
                    lim == IF k <= ril THEN s0 + E(1).offset ELSE s0 + dl
@@ -132,9 +132,10 @@ HdrChkLoose(b, h, R) ==
                /\ e.tag >= 100
                /\ (k > 2 /\ k <= ril => E(k - 1).tag < e.tag)
                /\ e.type \in 1..9 /\ e.count >= 1 /\ (e.type = TString => e.count = 1)
-               /\ e.offset >= 0 /\ e.offset % Align(e.type) = 0
+               /\ e.offset >= 0 /\ e.offset <= dl /\ e.offset % Align(e.type) = 0
+               /\ (IF k <= ril THEN e.offset <= E(1).offset ELSE e.offset >= rdl)
                /\ len > 0
-               /\ (IF k <= ril THEN e.offset + len <= E(1).offset ELSE e.offset >= rdl /\ e.offset + len <= dl)
+               /\ (IF k <= ril THEN len <= E(1).offset - e.offset ELSE len <= dl - e.offset)
                /\ (k > 2 /\ k # ril + 1 =>
                      LET p == E(k - 1)  pl == DataLen(b, s0, lim, p) IN p.offset + pl <= e.offset)
           /\ \A j, k \in 2..n : j # k => E(j).tag # E(k).tag
